@@ -256,6 +256,14 @@ func TestVerif_C12(t *testing.T) {
 		if r.IntN(2) == 0 {
 			opt.PingDuration = 0
 		}
+		// some sessions outlive the send timeout: idle periods between frames must not
+		// end a session whose peer keeps reading
+		pauseAt, pause := -1, time.Duration(0)
+		if i%8 == 1 {
+			opt.SendTimeout = 120 * time.Millisecond
+			pauseAt, pause = len(frames)/3, 400*time.Millisecond
+			rep.Count("connections_outliving_send_timeout", 1)
+		}
 		relay := mocrelay.NewRelay(h, opt)
 		srv := httptest.NewServer(relay)
 		defer srv.Close()
@@ -282,7 +290,10 @@ func TestVerif_C12(t *testing.T) {
 		// writer
 		werr := make(chan error, 1)
 		go func() {
-			for _, f := range frames {
+			for fi, f := range frames {
+				if fi == pauseAt {
+					time.Sleep(pause)
+				}
 				typ := websocket.MessageText
 				if f.binary {
 					typ = websocket.MessageBinary
